@@ -160,6 +160,10 @@ type c19Case struct {
 	// same session-ticket keys - starts presenting a chain of this (invalid) kind; the next connection made with the
 	// same endpoint object must be refused like any other connection to such a server
 	SwapTo string `json:"then_server_presents,omitempty"`
+	// Redirect (metadata target, valid chain): the genuine metadata service answers 307 to another server whose
+	// certificate - issued by the bundle's CA - is for a different name; following the redirect is a TLS connection
+	// to "the metadata service" all the same and has to be verified for the bundle's host name
+	Redirect bool `json:"metadata_redirects_to_other_name,omitempty"`
 }
 
 var c19ValidKinds = map[string]bool{"valid": true, "valid-intermediate-sent": true, "valid-wildcard": true, "expires-soon": true}
@@ -365,7 +369,24 @@ func c19Check(c c19Case) *evid.Fail {
 	if c.Target == "metadata" {
 		mdChain = badChain
 	}
+	var redir *tlsProbe
+	if c.Redirect {
+		rc := c
+		rc.Kind, rc.SAN = "wrong-name", "elsewhere-"+c.Host
+		redir, err = startProbe(serverChain(rc), func(first []byte) []byte {
+			body, _ := json.Marshal(map[string]interface{}{"version": 1, "region": "", "contact_info": map[string]interface{}{
+				"type": "sni_proxy", "local_dc": "dc1", "sni_proxy_address": fmt.Sprintf("node.%s:%d", strings.TrimPrefix(c.Host, "*."), node.port()), "contact_points": []string{c.NodeID}}})
+			return []byte(fmt.Sprintf("HTTP/1.1 200 OK\r\nContent-Type: application/json\r\nContent-Length: %d\r\nConnection: close\r\n\r\n%s", len(body), body))
+		})
+		if err != nil {
+			return evid.Failf("harness-probe", "%v", err)
+		}
+		defer redir.close()
+	}
 	md, err := startProbe(mdChain, func(first []byte) []byte {
+		if c.Redirect {
+			return []byte(fmt.Sprintf("HTTP/1.1 307 Temporary Redirect\r\nLocation: https://elsewhere-%s:%d/metadata\r\nContent-Length: 0\r\nConnection: close\r\n\r\n", c.Host, redir.port()))
+		}
 		body, _ := json.Marshal(map[string]interface{}{"version": 1, "region": "", "contact_info": map[string]interface{}{
 			"type": "sni_proxy", "local_dc": "dc1", "sni_proxy_address": fmt.Sprintf("node.%s:%d", strings.TrimPrefix(c.Host, "*."), node.port()), "contact_points": append([]string{c.NodeID}, c.Others...)}})
 		return []byte(fmt.Sprintf("HTTP/1.1 200 OK\r\nContent-Type: application/json\r\nContent-Length: %d\r\nConnection: close\r\n\r\n%s", len(body), body))
@@ -414,6 +435,15 @@ func c19Check(c c19Case) *evid.Fail {
 		app := len(md.appBytes)
 		md.mu.Unlock()
 		// the plain client above sent no application data, so any application bytes came from the resolver
+		if c.Redirect {
+			redir.mu.Lock()
+			rapp, rhs := len(redir.appBytes), redir.hsOK
+			redir.mu.Unlock()
+			if rerr == nil || rapp > 0 || rhs > 0 {
+				return evid.Failf("invalid-server-accepted:metadata:redirect-target-other-name", "the metadata service redirected to a server whose certificate is for %q, not for the bundle host %q: Resolve err=%v, that server completed %d handshakes and received %d requests", "elsewhere-"+c.Host, c.Host, rerr, rhs, rapp)
+			}
+			return nil
+		}
 		if valid {
 			if rerr != nil {
 				return evid.Failf("valid-server-rejected:metadata:"+c.Kind, "Resolve failed against a %s: %v", what, rerr)
@@ -591,6 +621,9 @@ func c19Gen(rt *rapid.T) c19Case {
 		}
 	case "expired", "not-yet-valid":
 		c.Delta = rapid.SampledFrom([]int64{120, 3600, 86400, 30 * 86400, 365 * 86400, 3650 * 86400}).Draw(rt, "delta")
+	}
+	if c.Kind == "valid" && c.Target == "metadata" && rapid.IntRange(0, 2).Draw(rt, "redirect") == 0 {
+		c.Redirect = true
 	}
 	if c.Kind == "valid" && c.Target != "metadata" && rapid.IntRange(0, 2).Draw(rt, "swap") == 0 {
 		c.SwapTo = rapid.SampledFrom([]string{"self-signed", "other-ca", "forged-issuer-name", "intermediate-missing"}).Draw(rt, "swapto")
